@@ -11,7 +11,7 @@ import z3
 from .contract import Contract
 from .pyexpr import ExprMixin, PyDictLit
 from .pymatch import MODE_KINDS, MatchMixin, PyPattern
-from .pyvals import (LE_BYTES, LE_VAL, NONE, Exc, IntSeq, NoneVal, PAbs, PyCache, PyComp, PyCallable, PyConst, PyGen, PyKey, PyList, PyLit, PyMap, PyObj, PyOpt, PyRuleSeq, PyStrDict,
+from .pyvals import (LE_BYTES, LE_VAL, NONE, Exc, IntSeq, NoneVal, PAbs, PyCache, PyComp, PyUnion, PyCallable, PyConst, PyGen, PyKey, PyList, PyLit, PyMap, PyObj, PyOpt, PyRuleSeq, PyStrDict,
                      PyStrSet, PyTuple, StrSeq, Tok, TokSeq, Val, ValSeq, VAL_AXIOMS, clone, fresh, is_bool, is_int, is_seq,
                      is_str, is_tok, is_val, is_z3, tok_fields, truthy)
 from .pyvc import (VC, St, Tr, Unsupported, dedent, eq, is_keyword, is_soft_keyword, join_lines, lift, str_isspace, str_lower,
@@ -216,9 +216,10 @@ class Executor(MatchMixin, ExprMixin):
             st.assume(z3.ForAll([jq], z3.Implies(z3.And(jq >= 0, jq < z3.Length(items)), z3.Length(items[jq]) > 0)))
             return [PyCallable("linesrc", prefix, bound=PyGen(items, p))]
         if ty.startswith("obj:"):
-            cls = ty[4:]
-            shape = self.classes[cls]
+            shape = self.classes[ty[4:]]          # `Cls#variant`: another shape of the same class (a node whose children differ by role)
+            cls = ty[4:].split("#")[0]
             o = PyObj(cls, {})
+            variants = None
             for f, fty in shape.items():
                 if f.startswith("__"):
                     continue
@@ -230,8 +231,15 @@ class Executor(MatchMixin, ExprMixin):
                     continue
                 alts = self.mk(fty, f"{prefix}.{f}", st)
                 if len(alts) != 1:
-                    raise Unsupported(f"optional field {cls}.{f} in a class shape (declare it per contract)")
+                    if variants is not None or shape.get("__invariant__"):
+                        raise Unsupported(f"more than one field of forking type in the shape of {cls} (or one together with an invariant)")
+                    variants = (f, alts)
+                    continue
                 o.fields[f] = alts[0]
+            if variants is not None:
+                # one object per alternative of the forking field (the other fields are the same symbols: the alternatives are exclusive)
+                f, alts = variants
+                return [PyObj(cls, {**o.fields, f: a}) for a in alts]
             if shape.get("__invariant__"):
                 # class invariant of the abstraction (established by the only constructor call site, fields immutable afterwards:
                 # both facts are separate obligations, see the shape's comment)
@@ -248,9 +256,108 @@ class Executor(MatchMixin, ExprMixin):
             return [o]
         if ty.startswith("const:"):
             return [PyConst(ty[6:])]
+        if ty == "none":
+            return [NONE]
+        if ty == "list0":
+            return [PyList([])]
+        if ty.startswith("list1["):
+            return [PyList([x]) for x in self.mk(ty[6:-1], prefix + "_0", st)]
+        if ty.startswith("objseq["):
+            return [self.mk_objseq(ty[7:-1], prefix, st)]
+        if ty.startswith("(") and ty.endswith(")"):
+            outs = [[]]
+            for k, t in enumerate(self.split_top(ty[1:-1], ",")):
+                alts = self.mk(t, f"{prefix}_{k}", st)
+                outs = [o + [a] for o in outs for a in alts]
+            return [PyTuple(o) for o in outs]
         if ty.startswith("oneof["):
             return [z3.StringVal(t.strip().strip("'")) for t in ty[6:-1].split("|")]
         raise Unsupported(f"type {ty}")
+
+    @staticmethod
+    def split_top(text: str, sep: str):
+        out, depth, cur = [], 0, ""
+        for ch in text:
+            if ch in "[(":
+                depth += 1
+            elif ch in "])":
+                depth -= 1
+            if ch == sep and depth == 0:
+                out.append(cur.strip())
+                cur = ""
+            else:
+                cur += ch
+        if cur.strip():
+            out.append(cur.strip())
+        return out
+
+    def mk_objseq(self, elt_ty: str, prefix: str, st: St):
+        """a list argument whose elements are objects / tuples / tokens of the given shape: unknown length, every field of the
+        element at index j is an uninterpreted function of j, its identity is a function of j too (injective, apart from every
+        object the code allocates: elements are pairwise distinct objects -- separation assumption, reported in the evidence)"""
+        self.objseq_count = getattr(self, "objseq_count", 0) + 1
+        sid = self.objseq_count
+        j = fresh(f"{prefix}_j", I)
+        n = fresh(f"{prefix}_len", I)
+        st.assume(n >= 0)
+        pc0 = len(st.pc)
+        alts = self.mk(elt_ty, f"{prefix}_e", st)
+        tmpl = alts[0] if len(alts) == 1 else PyUnion(fresh(f"{prefix}_kind", I), alts)
+        if isinstance(tmpl, PyUnion):
+            st.assume(z3.And(tmpl.kind >= 0, tmpl.kind < len(alts)))
+        side = st.pc[pc0:]
+        del st.pc[pc0:]
+        consts: dict = {}
+
+        def collect(e):
+            if z3.is_const(e) and e.decl().kind() == z3.Z3_OP_UNINTERPRETED:
+                consts.setdefault(e.get_id(), e)
+            for c in e.children():
+                collect(c)
+
+        def walk(v, f):
+            if isinstance(v, PyObj):
+                for x in v.fields.values():
+                    walk(x, f)
+            elif isinstance(v, (PyList, PyTuple)):
+                for x in v.items:
+                    walk(x, f)
+            elif isinstance(v, PyUnion):
+                f(v.kind)
+                for x in v.alts:
+                    walk(x, f)
+            elif isinstance(v, PyLit):
+                f(v.isbytes)
+                f(v.val)
+            elif is_z3(v):
+                f(v)
+        walk(tmpl, collect)
+        for c in side:
+            collect(c)
+        sub = [(c, z3.Function(f"{c.decl().name()}@", I, c.sort())(j)) for c in consts.values() if not z3.eq(c, NoneVal)]
+
+        def app(v):
+            if isinstance(v, PyObj):
+                k = getattr(self, "_objseq_obj", 0) + 1
+                self._objseq_obj = k
+                return PyObj(v.cls, {f: app(x) for f, x in v.fields.items()}, ident=-(1 + (sid * 37 + k) + 4096 * j))
+            if isinstance(v, (PyList, PyTuple)):
+                return type(v)([app(x) for x in v.items])
+            if isinstance(v, PyUnion):
+                return PyUnion(app(v.kind), [app(x) for x in v.alts])
+            if isinstance(v, PyLit):
+                return PyLit(app(v.isbytes), app(v.val))
+            if is_z3(v):
+                return z3.substitute(v, *sub) if sub else v
+            return v
+        elt = app(tmpl)
+        if side:
+            jq = z3.Int("os!q")
+            body = z3.substitute(z3.substitute(z3.And(side), *sub), (j, jq)) if sub else z3.And(side)
+            st.assume(z3.ForAll([jq], z3.Implies(z3.And(jq >= 0, jq < n), body)))
+        self.assumptions_used = getattr(self, "assumptions_used", set())
+        self.assumptions_used.add("elements of a list argument are pairwise distinct objects, distinct from every other argument (separation)")
+        return PyComp(n, j, elt)
 
     def init_dict(self, cls: str, field: str):
         """the constant str->str dict literal assigned to self.<field> in the real <cls>.__init__"""
@@ -648,14 +755,22 @@ class Executor(MatchMixin, ExprMixin):
     def havoc_for_loop(self, st, body, extra_paths=(), types=None):
         names, attrs, calls = self.assigned_in(body)
         types = types or {}
+        forks = []
         for n in sorted(names):
             if n in types:
                 alts = self.mk(types[n], f"h_{n}", st)
+                for a in alts:
+                    if isinstance(a, PyObj):
+                        a.ident = fresh(f"id_{n}", I)        # WHICH object the variable holds after some iterations is not known
                 if len(alts) != 1:
-                    raise Unsupported("optional loop variable type (declare the some-case and guard in the invariant)")
+                    forks.append((n, alts))                  # the caller continues once per alternative (infeasible ones die on the invariant)
+                    continue
                 st.env[n] = self.rel_fresh(alts[0], f"h_{n}", n)
             elif n in st.env:
+                if isinstance(st.env[n], PyObj):
+                    raise Unsupported(f"loop assigns the object-valued local `{n}`: declare its type in the sidecar (loops/types)")
                 st.env[n] = self.rel_fresh(st.env[n], f"h_{n}", n)
+        st.loop_forks = forks
         for a in sorted(attrs) + list(extra_paths):
             self.havoc_path(st, a, "h_")
         if any(isinstance(n, (ast.Yield, ast.YieldFrom)) for b in body for n in ast.walk(b)) and "yielded" in st.env:
@@ -737,7 +852,11 @@ class Executor(MatchMixin, ExprMixin):
 
     def check_invariants(self, st, lc, kind, lineno, extra=None):
         for inv in lc.get("inv", []):
-            g = self.spec_eval(inv, st, extra)
+            try:
+                g = self.spec_eval(inv, st, extra)
+            except Unsupported as u:
+                self.vc(st, z3.BoolVal(False), kind, f"loop invariant `{inv}` cannot be evaluated on this path: {u}", lineno)
+                continue
             self.vc(st, Tr(g), kind, f"loop invariant `{inv}`", lineno)
 
     def assume_invariants(self, st, lc, extra=None):
@@ -774,6 +893,8 @@ class Executor(MatchMixin, ExprMixin):
         if self.product_run is not None:
             self.loop_log.setdefault((self.product_run, k), []).append(("entry", st.clone()))
         self.havoc_for_loop(st, s.body + [ast.Expr(value=s.test)], lc.get("havoc", ()), lc.get("types"))
+        if st.loop_forks:
+            raise Unsupported("loop variable of forking type (opt/union) in a while / generator loop")
         self.assume_invariants(st, lc)
         out = []
         v0 = lift(self.spec_eval(lc["dec"], st)) if lc.get("dec") else None
@@ -849,6 +970,8 @@ class Executor(MatchMixin, ExprMixin):
         self.coerce_loop_types(st, lc)
         self.check_invariants(st, lc, "invariant-entry", s.lineno, {"_i": z3.IntVal(0)})
         self.havoc_for_loop(st, s.body, lc.get("havoc", ()), lc.get("types"))
+        if st.loop_forks:
+            raise Unsupported("loop variable of forking type (opt/union) in a while / generator loop")
         i = fresh("i", I)
         st.assume(z3.And(i >= 0, pos0 + i <= z3.Length(g.items)))
         g.pos = pos0 + i
@@ -884,6 +1007,9 @@ class Executor(MatchMixin, ExprMixin):
             lines = it.fields["lines"]
             n = z3.Length(lines)
             elem = lambda j: lines[j]
+        elif isinstance(it, PyComp):
+            n = it.length
+            elem = it.at
         else:
             raise Unsupported(f"for over {type(it).__name__}")
         i0 = z3.IntVal(0)
@@ -892,24 +1018,64 @@ class Executor(MatchMixin, ExprMixin):
         self.havoc_for_loop(st, s.body, lc.get("havoc", ()), lc.get("types"))
         i = fresh("i", I)
         st.assume(z3.And(i >= 0, i <= n))
-        self.assume_invariants(st, lc, {"_i": i})
         out = []
-        for p2, more in self.fork(st, i < n):
-            if not more:
-                out.append((p2, Flow("normal")))
+        for st in self.loop_fork_states(st):
+            self.assume_invariants(st, lc, {"_i": i})
+            if not self.feasible(st, z3.BoolVal(True)):
                 continue
-            self.assign_target(s.target, elem(i), p2, s)
-            p2.env["_i"] = i               # ghost: number of completed iterations (readable by witness hints / specs evaluated inside the body)
-            for p3, fl in self.exec_block(s.body, p2):
-                if fl.kind in ("normal", "continue"):
-                    self.check_invariants(p3, lc, "invariant-preserved", s.lineno, {"_i": i + 1})
-                elif fl.kind == "break":
-                    p3.env["_i_at_break"] = i
-                    out.append((p3, Flow("normal")))
-                else:
-                    out.append((p3, fl))
+            for p2, more in self.fork(st, i < n):
+                if not more:
+                    out.append((p2, Flow("normal")))
+                    continue
+                for p2, x in self.split_union(p2, elem(i)):
+                    self.assign_target(s.target, x, p2, s)
+                    p2.env["_i"] = i               # ghost: number of completed iterations (readable by witness hints / specs evaluated inside the body)
+                    for p3, fl in self.exec_block(s.body, p2):
+                        if fl.kind in ("normal", "continue"):
+                            self.check_invariants(p3, lc, "invariant-preserved", s.lineno, {"_i": i + 1})
+                        elif fl.kind == "break":
+                            p3.env["_i_at_break"] = i
+                            out.append((p3, Flow("normal")))
+                        else:
+                            out.append((p3, fl))
         # variant of a for-loop over a finite sequence is len - _i (automatic)
         return out
+
+    def loop_fork_states(self, st):
+        """after havoc_for_loop: one state per combination of the alternatives of loop variables with a forking type (opt/union)"""
+        forks = getattr(st, "loop_forks", None) or []
+        st.loop_forks = []
+        states = [st]
+        for n, alts in forks:
+            nxt = []
+            for s0 in states:
+                for k, a in enumerate(alts):
+                    s1 = s0.clone() if k < len(alts) - 1 else s0
+                    s1.env[n] = clone(a, {}) if k < len(alts) - 1 else a
+                    nxt.append(s1)
+            states = nxt
+        return states
+
+    def split_union(self, st, v):
+        """a value of union shape: one path per feasible alternative (tuples are searched one level deep)"""
+        if isinstance(v, PyUnion):
+            out = []
+            for k, a in enumerate(v.alts):
+                if self.feasible(st, v.kind == k):
+                    s1 = st.clone()
+                    s1.assume(v.kind == k)
+                    out.append((s1, a))
+            return out
+        if isinstance(v, PyTuple) and any(isinstance(x, PyUnion) for x in v.items):
+            out = [(st, [])]
+            for x in v.items:
+                nxt = []
+                for s0, acc in out:
+                    for s1, a in self.split_union(s0, x):
+                        nxt.append((s1, acc + [a]))
+                out = nxt
+            return [(s0, PyTuple(acc)) for s0, acc in out]
+        return [(st, v)]
 
     # ------------------------------------------------------------------ generators: yielded tokens go to the ghost sequence `yielded`
     def _emit(self, st, v):
